@@ -91,6 +91,11 @@ def run_small(ctx, ok_drv, sub, prop, args):
             cov["crash_images_recovered_and_compared"] = cov.get("crash_images_recovered_and_compared", 0) + int(m["checked"])
             cov["distinct_recovered_states"] = cov.get("distinct_recovered_states", 0) + int(m["distinct-recovered-states"])
             cov["evaluations"] += int(m["checked"])
+        elif l.startswith("crashobs "):
+            m = dict(x.split("=") for x in l.split()[1:] if "=" in x)
+            cov["replies_stamped_with_a_crash_point"] = cov.get("replies_stamped_with_a_crash_point", 0) + int(m.get("getattr-replies", 0))
+            cov["crash_right_after_a_reply_recovered_and_compared"] = cov.get("crash_right_after_a_reply_recovered_and_compared", 0) + int(m["checked"])
+            cov["evaluations"] += int(m["checked"])
         elif l.startswith("# ORACLE " + prop + " "):
             f = l.split(" ", 4)
             ctx.add_violation("crash:" + f[3], (f[4] if len(f) > 4 else "")[:600],
@@ -108,3 +113,24 @@ def run_small(ctx, ok_drv, sub, prop, args):
                 ctx.add_violation("wal-protocol:" + " ".join(m[0].split()[1:6]), m[0][:500], {"how": "driver wal over the trace of harness " + sub, "message": m[0][:1000]})
         except Break as b:
             ctx.breaks.append(b)
+
+
+def run_obs(ctx, prop):
+    """crashobs: what a reply revealed to ANOTHER client must survive a crash right after that reply."""
+    tr = os.path.join(ctx.scratch, "crashobs.txt")
+    args = ["-prop", prop] + (["-workloads", "40", "-steps", "40"] if ctx.tier == "thorough" else ["-workloads", "4", "-steps", "30"])
+    rc, err = ctx.harness(["crashobs", "-seed", str(ctx.seed)] + args, tr, timeout=3000)
+    if rc != 0:
+        ctx.breaks.append(Break("correspondence", "harness crashobs failed to run", err[-2000:]))
+        return
+    cov = ctx.cov
+    for l in open(tr).read().splitlines():
+        if l.startswith("crashobs "):
+            m = dict(x.split("=") for x in l.split()[1:] if "=" in x)
+            cov["replies_stamped_with_a_crash_point"] = cov.get("replies_stamped_with_a_crash_point", 0) + int(m["replies-showing-a-name"])
+            cov["crash_right_after_a_reply_recovered_and_compared"] = cov.get("crash_right_after_a_reply_recovered_and_compared", 0) + int(m["checked"])
+            cov["evaluations"] += int(m["checked"])
+        elif l.startswith("# ORACLE " + prop + " "):
+            f = l.split(" ", 4)
+            ctx.add_violation("crash:" + f[3], (f[4] if len(f) > 4 else "")[:600],
+                              {"how": "harness crashobs -seed %d %s" % (ctx.seed, " ".join(args)), "oracle": l[:3000]})
